@@ -161,7 +161,8 @@ def run(ctx):
                 outcome = "SyntaxError"
             except Exception as e:
                 outcome = type(e).__name__ + ": " + str(e)[:80]
-            key = "C03-lambda-not-written-as-the-argument" if expect == "known-mispick" else None
+            key = {"known-mispick": "C03-lambda-not-written-as-the-argument",
+                   "known-mispick-keyword": "C03-lambda-keyed-by-the-token-before-it"}.get(expect)
             wrong = False
             for name, f, s, tr in received:
                 lam = s.query_ast.args[1]
